@@ -1,6 +1,7 @@
 package main
 
 import (
+	"sort"
 	"fmt"
 	"go/types"
 	"strings"
@@ -89,6 +90,21 @@ func (x *Exec) entry(fn *ssa.Function) ([]Val, State) {
 			})
 		}
 	}
+	// what a captured variable holds (a slice, a pointer) is not one of the captured cells
+	for bi, b := range x.entryBinds {
+		pt, ok := fn.FreeVars[bi].Type().Underlying().(*types.Pointer)
+		if !ok {
+			continue
+		}
+		bb := b
+		x.walkRefs(pt.Elem(), 0, func(cell int, ft types.Type) {
+			inner := sel(st.Mem, bb[0].T, add(bb[1].T, itoa(int64(cell))))
+			for _, c := range x.entryBinds {
+				S.raw("(assert " + not(eq(inner, c[0].T)) + ")")
+				x.vc.markDistinct(inner, c[0].T)
+			}
+		})
+	}
 	// distinct pointer-like parameters do not alias (stated assumption, see DESIGN 2.4)
 	var refs []string
 	for i, p := range fn.Params {
@@ -175,6 +191,7 @@ func (e *Engine) verifyFuncOpts(key string, o RunOpts) (fr *FuncResult) {
 	fr.Exec = x
 	if withTrace {
 		x.trace = newTrace()
+		x.trace.indexSites(fn, x.calleeName)
 		fr.Trace = x.trace
 	}
 	if ct != nil {
@@ -197,6 +214,10 @@ func (e *Engine) verifyFuncOpts(key string, o RunOpts) (fr *FuncResult) {
 		o.Setup(x)
 	}
 	args, st := x.entry(fn)
+	// ghost objects exist (and are stable) from the start, so that no early havoc reaches them
+	for _, g := range ghostObjs {
+		ghostObj(x, g)
+	}
 	// preconditions
 	pre := &frame{fn: fn, c: ct, vals: map[ssa.Value]Val{}, entrySt: st.clone(), entryVals: args, top: true, dbg: map[string][]dbgRef{}}
 	if ct != nil {
@@ -252,6 +273,54 @@ func (e *Engine) verifyFuncOpts(key string, o RunOpts) (fr *FuncResult) {
 			}
 			for ci, cs := range cases {
 				vc.oblige(fmt.Sprintf("%s#post.%d%s", key, k+1, caseNames[ci]), "post", and(outReach, cs), t, fmt.Sprintf("%s:%d", shortPath(ct.File), en.Line))
+			}
+		}
+		// frame: callers rely on the modifies clause (cells outside it keep their value, maps are
+		// untouched unless modifies_maps is given), so it is an obligation of the function itself
+		if len(ct.Modifies) > 0 {
+			envOld := env.withState(&frm.entrySt)
+			var mods []string
+			pure := len(ct.Modifies) == 1 && ct.Modifies[0].Text == "nothing"
+			if !pure {
+				for _, m := range ct.Modifies {
+					mods = append(mods, x.evalLoc(envOld, m.Expr))
+				}
+			}
+			keepCond := and(sx("<=", "0", "r"), sx("<", "r", "A0"))
+			if len(mods) > 0 {
+				keepCond = and(keepCond, not(or(mods...)))
+			}
+			goal := fmt.Sprintf("(forall ((r Int) (o Int)) (=> %s (= (%s r o) (%s r o))))", keepCond, out.Mem, frm.entrySt.Mem)
+			if out.Mem != frm.entrySt.Mem {
+				vc.oblige(key+"#frame:memory", "post", outReach, goal, fmt.Sprintf("%s:%d", shortPath(ct.File), ct.Modifies[0].Line))
+			}
+			if _, ok := ct.Raw["modifies_maps"]; !ok {
+				var fams []string
+				for f := range out.Maps {
+					fams = append(fams, f)
+				}
+				sort.Strings(fams)
+				for _, fname := range fams {
+					f := vc.mapFams[fname]
+					in := frm.entrySt.Maps[fname]
+					if f == nil || in == "" {
+						in = ""
+						if f != nil {
+							in = f.init
+						}
+					}
+					if f == nil || in == "" || out.Maps[fname] == in {
+						continue
+					}
+					decl, names := f.params()
+					args := strings.Join(names, " ")
+					var eqs []string
+					eqs = append(eqs, fmt.Sprintf("(= (%s %s) (%s %s))", f.hasFn(out.Maps[fname]), args, f.hasFn(in), args))
+					for j := range f.vl.cells {
+						eqs = append(eqs, fmt.Sprintf("(=> (%s %s) (= (%s %s) (%s %s)))", f.hasFn(in), args, f.valFn(out.Maps[fname], j), args, f.valFn(in, j), args))
+					}
+					vc.oblige(key+"#frame:map:"+fname, "post", outReach, fmt.Sprintf("(forall (%s) (=> (and (<= 0 m) (< m A0)) %s))", decl, and(eqs...)), fmt.Sprintf("%s:%d", shortPath(ct.File), ct.Modifies[0].Line))
+				}
 			}
 		}
 		// a site assertion that matches no call site says nothing (renamed callee, wrong ordinal):
@@ -349,8 +418,13 @@ func (x *Exec) sliceElemFacts(mem string, et types.Type, ref, off, ln string, gu
 	if es == 1 {
 		ci := el.cells[0]
 		if ci.kind == kInt && ci.lo != "" {
-			S.fact(guard, fmt.Sprintf("(forall ((o Int)) (! (=> (and (<= %s o) (< o (+ %s %s))) (and (<= %s (%s %s o)) (<= (%s %s o) %s))) :pattern ((%s %s o))))",
-				off, off, ln, ci.lo, mem, ref, mem, ref, ci.hi, mem, ref))
+			if mem == x.vc.baseMem || strings.HasPrefix(mem, "Mh") || strings.HasPrefix(mem, "M0") {
+				S.fact(guard, fmt.Sprintf("(forall ((o Int)) (! (=> (and (<= %s o) (< o (+ %s %s))) (and (<= %s (%s %s o)) (<= (%s %s o) %s))) :pattern ((%s %s o))))",
+					off, off, ln, ci.lo, mem, ref, mem, ref, ci.hi, mem, ref))
+			} else {
+				S.fact(guard, fmt.Sprintf("(forall ((o Int)) (=> (and (<= %s o) (< o (+ %s %s))) (and (<= %s (%s %s o)) (<= (%s %s o) %s))))",
+					off, off, ln, ci.lo, mem, ref, mem, ref, ci.hi))
+			}
 		}
 		return
 	}
@@ -370,11 +444,23 @@ func (x *Exec) sliceElemFacts(mem string, et types.Type, ref, off, ln string, gu
 		case kOff:
 			body = sx("<=", "0", cell)
 		case kRef:
-			body = and(sx("<=", "0", cell), sx("<", cell, "A0"))
+			bound := "A0"
+			if x.refBound != "" {
+				bound = x.refBound
+			}
+			body = and(sx("<=", "0", cell), sx("<", cell, bound))
 		default:
 			continue
 		}
-		S.fact(guard, fmt.Sprintf("(forall ((k Int)) (! (=> (and (<= 0 k) (< k %s)) %s) :pattern (%s)))", ln, body, cell))
+		if mem == x.vc.baseMem || strings.HasPrefix(mem, "Mh") || strings.HasPrefix(mem, "M0") {
+			S.fact(guard, fmt.Sprintf("(forall ((k Int)) (! (=> (and (<= 0 k) (< k %s)) %s) :pattern (%s)))", ln, body, cell))
+			continue
+		}
+		// a derived memory is a macro (no usable trigger): the first elements are stated one by one
+		for k := 0; k < 4; k++ {
+			inst := strings.ReplaceAll(body, "(* k ", fmt.Sprintf("(* %d ", k))
+			S.fact(and(guard, sx("<", itoa(int64(k)), ln)), inst)
+		}
 	}
 }
 
